@@ -28,7 +28,25 @@ def make_post(p):
         return _post.Stack(**kw)
     if n == "standardize":
         return _post.Standardize()
+    if n == "standardize_explicit":
+        return _Explicit(p["mean"], p["std"], p.get("norm_var", True))
     raise ValueError(n)
+
+
+class _Explicit(object):
+    """(x - mean) / std with given per-coefficient statistics, written out (the reference for statistics files that the
+    harness itself generated: independent of the library's loader and of Standardize)."""
+
+    def __init__(self, mean, std, norm_var):
+        self.mean = np.asarray(mean, dtype=np.float64)
+        self.std = np.asarray(std, dtype=np.float64)
+        self.norm_var = norm_var
+
+    def apply(self, feats):
+        y = np.asarray(feats, dtype=np.float64) - self.mean[None, :]
+        if self.norm_var:
+            y = y / self.std[None, :]
+        return y
 
 
 def reference(x, cfg, pre, post, channel, want_signal=False):
